@@ -162,7 +162,7 @@ fn ilv_part(run: &mut Run, quick: bool) {
         vec![s(&["use-db t tok", "<disconnect>"]), s(&["use-db t tok", "<disconnect>"])],
         vec![s(&["use-db t tok", "use-db u tok2"]), s(&["use-db t tok"])],
     ];
-    let setup = Setup { strategy: "none", init: vec!["create-db u tok2".to_string()], session_init: vec![vec![], vec![]] };
+    let setup = Setup { strategy: "none", init: vec!["create-db u tok2".to_string()], session_init: vec![vec![], vec![]], check_replica: false };
     let bound = if quick { 2 } else { 3 };
     let mut execs = 0u64;
     let mut pts = 0u64;
